@@ -50,6 +50,8 @@ Theorem content_ok_b_sound h c : (h_fmt h = 0 \/ h_fmt h = 1) ->
   content_ok_b sf ss h c = true -> ContentOK sf ss h c.
 Proof.
   intros Hf H. unfold content_ok_b in H.
+  apply andb_true_iff in H; destruct H as [H Cty2].
+  apply andb_true_iff in H; destruct H as [H Cty1].
   apply andb_true_iff in H; destruct H as [H Ts].
   apply andb_true_iff in H; destruct H as [H Ag].
   apply andb_true_iff in H; destruct H as [H At].
@@ -102,7 +104,9 @@ Proof.
     - right. apply ext_has. exact X. }
   split.
   { intros F0. apply orb_true_iff in Ot. destruct Ot as [X|X]; [apply negb_true_iff, Z.eqb_neq in X; contradiction|]. apply tval_eqb_eq. exact X. }
-  split; [exact Ae|]. split; [exact An|]. split; [exact Co|]. split; [exact Ch|]. split; [exact At|]. split; [exact Ag|exact Ts].
+  split; [exact Ae|]. split; [exact An|]. split; [exact Co|]. split; [exact Ch|]. split; [exact At|]. split; [exact Ag|]. split; [exact Ts|].
+  split; [apply Z.eqb_eq; exact Cty1|].
+  intros F1 X. rewrite X in Cty2. apply orb_true_iff in Cty2. destruct Cty2 as [Y|Y]; [apply Z.eqb_eq in Y; lia|discriminate].
 Qed.
 
 (* and nothing stricter: every content satisfying ContentOK passes the boolean *)
@@ -110,8 +114,10 @@ Theorem content_ok_b_complete h c : (h_fmt h = 0 \/ h_fmt h = 1) ->
   ContentOK sf ss h c -> content_ok_b sf ss h c = true.
 Proof.
   intros Hf H. unfold ContentOK in H.
-  destruct H as (P & S & Pe & Se & Sc & Sce & (tag & Ht & Htag) & Tn & E & Ee & Et & Cs & Ce & Ca & Cp & Ot & Ae & An & Co & Ch & At & Ag & Ts).
+  destruct H as (P & S & Pe & Se & Sc & Sce & (tag & Ht & Htag) & Tn & E & Ee & Et & Cs & Ce & Ca & Cp & Ot & Ae & An & Co & Ch & At & Ag & Ts & Cty1 & Cty2).
   unfold content_ok_b.
+  apply andb_true_iff. split; [apply andb_true_iff; split|].
+  {
   apply andb_true_iff. split.
   {
     apply andb_true_iff. split.
@@ -201,6 +207,9 @@ Proof.
     { apply Z.eqb_eq. exact Ag. }
   }
   { apply Z.eqb_eq. exact Ts. }
+  }
+  { apply Z.eqb_eq. exact Cty1. }
+  { apply orb_true_iff. destruct Hf as [F|F]; [left; apply Z.eqb_eq; exact F|right]. destruct (h_cty h); [reflexivity|exfalso; apply (Cty2 F); reflexivity]. }
 Qed.
 End S.
 
